@@ -908,6 +908,9 @@ def o_lean_sync(scn, obs, runner, driver):
     for i, ((op, o), (ci, lo, hi, lids, store0)) in enumerate(zip(zip(scn["ops"], obs), _op_ranges(scn, obs))):
         if op["op"] not in ("pull", "list", "stat") or not res_ok(o) or not lids or store0 != 0 or not (0 <= ci < len(runner.link.used)):
             continue
+        if runner.link.used[ci].faults or runner.link.used[ci].env.get("faults"):
+            continue      # on a connection with an injected transport failure the id bookkeeping below (which stream carried the reply) is not reliable;
+                          # the simulator-ground-truth oracles (o_c08 / o_c09) judge those runs
         pk = _packets_full(runner.link.used[ci], lo, hi)
         lid = lids[-1] if not (op["op"] == "pull" and op.get("cb", "none") != "none") else lids[0]   # with a callback the stat stream is opened second
         fmt = op["op"]
